@@ -6,7 +6,7 @@
    repaired rule.  The hard clauses (Hard) are proved for BOTH variants; the shape clause
    (Shape) is refuted for the current variant by a concrete run and kept as [C11_full]. *)
 From Coq Require Import List ZArith QArith Bool Arith Permutation.
-From GV Require Import Lib.Tree Model.DrawSet Proofs.DrawSetP Model.Mcmc Proofs.McmcP.
+From GV Require Import Lib.Tree Model.DrawSet Proofs.DrawSetP Model.Mcmc Proofs.McmcP Proofs.McmcCheckP.
 Import ListNotations.
 
 (* the full statement of the property for the model of rewire(): every graph the run passes
@@ -189,3 +189,85 @@ Example C11_shape_checker_on_example :
   check_shape ex_edges (s_es (snd (fst (ex_run false)))) = false /\
   check_shape ex_edges (s_es (snd (fst (ex_run true)))) = true.
 Proof. vm_compute. split; reflexivity. Qed.
+
+(* ================================================================== Growth *)
+(* the verified checkers are also COMPLETE: they DECIDE the hard clauses and the shape clause *)
+Theorem C11_check_hard_complete :
+  forall nodes0 es0 nodes es, Hard nodes0 es0 nodes es -> check_hard nodes0 es0 nodes es = true.
+Proof. exact check_hard_complete. Qed.
+Print Assumptions C11_check_hard_complete.
+
+Theorem C11_check_hard_iff :
+  forall nodes0 es0 nodes es, check_hard nodes0 es0 nodes es = true <-> Hard nodes0 es0 nodes es.
+Proof. exact check_hard_iff. Qed.
+Print Assumptions C11_check_hard_iff.
+
+Theorem C11_check_shape_complete : forall es0 es, Shape es0 es -> check_shape es0 es = true.
+Proof. exact check_shape_complete. Qed.
+Print Assumptions C11_check_shape_complete.
+
+Theorem C11_check_shape_iff : forall es0 es, check_shape es0 es = true <-> Shape es0 es.
+Proof. exact check_shape_iff. Qed.
+Print Assumptions C11_check_shape_iff.
+
+Theorem C11_check_inv_iff :
+  forall nodes0 es0 nodes es,
+    check_inv nodes0 es0 nodes es = true <-> Hard nodes0 es0 nodes es /\ Shape es0 es.
+Proof. exact check_inv_iff. Qed.
+Print Assumptions C11_check_inv_iff.
+
+(* the well-formedness test (simple graph on 0..N-1) is decided too *)
+Theorem C11_wfb_iff : forall N es, wfb N es = true <-> WF N es.
+Proof. exact wfb_iff. Qed.
+Print Assumptions C11_wfb_iff.
+
+(* consequently the checkers accept every state of every run of the model: the hard checker for
+   both id rules, the full checker (hard + shape) for the repaired rule *)
+Theorem C11_model_passes_check_hard :
+  forall fixed nodes tg es0 sl cl evs,
+    WF (Z.of_nat (length nodes)) es0 ->
+    let C := mk_cfg fixed nodes tg es0 sl cl in
+    let '(r, sf, tr) := rewire C es0 evs in
+    Forall (fun s => check_hard nodes es0 nodes (s_es s) = true) (sf :: tr).
+Proof. exact rewire_passes_check_hard. Qed.
+Print Assumptions C11_model_passes_check_hard.
+
+Theorem C11_fixed_model_passes_check_inv :
+  forall nodes tg es0 sl cl evs,
+    WF (Z.of_nat (length nodes)) es0 ->
+    let C := mk_cfg true nodes tg es0 sl cl in
+    let '(r, sf, tr) := rewire C es0 evs in
+    Forall (fun s => check_inv nodes es0 nodes (s_es s) = true) (sf :: tr).
+Proof. exact rewire_fixed_passes_check_inv. Qed.
+Print Assumptions C11_fixed_model_passes_check_inv.
+
+(* and the refutation transfers to the checker by logic alone: on the final graph of the crossed-id run
+   check_shape MUST answer false (previously only observed by computation) *)
+Theorem C11_check_shape_rejects_refuted :
+  exists nodes tg es0 sl cl evs,
+    WF (Z.of_nat (length nodes)) es0 /\
+    let '(r, sf, tr) := rewire (mk_cfg false nodes tg es0 sl cl) es0 evs in
+    check_shape es0 (s_es sf) = false.
+Proof.
+  destruct C11_shape_refuted as [nodes [tg [es0 [sl [cl [evs [HW H]]]]]]].
+  exists nodes, tg, es0, sl, cl, evs. split; [exact HW|].
+  destruct (rewire (mk_cfg false nodes tg es0 sl cl) es0 evs) as [[r sf] tr].
+  destruct (check_shape es0 (s_es sf)) eqn:E; [|reflexivity].
+  exfalso. apply H. now apply check_shape_sound.
+Qed.
+Print Assumptions C11_check_shape_rejects_refuted.
+
+(* non-vacuity of the completeness hypotheses: on the example run of the repaired rule Hard and Shape hold
+   at the Prop level by the general theorems (not through the checkers) *)
+Example C11_completeness_nonvacuous :
+  let sf := snd (fst (ex_run true)) in
+  Hard ex_nodes ex_edges ex_nodes (s_es sf) /\ Shape ex_edges (s_es sf) /\ s_es sf <> ex_edges.
+Proof.
+  cbv zeta. pose proof (C11_shape_fixed ex_nodes ex_target ex_edges (Some 25%nat) (Some 1%nat) ex_events
+                          C11_nonvacuous_wf) as H. cbv zeta in H.
+  change (rewire (mk_cfg true ex_nodes ex_target ex_edges (Some 25%nat) (Some 1%nat)) ex_edges ex_events)
+    with (ex_run true) in H.
+  assert (Hne : s_es (snd (fst (ex_run true))) <> ex_edges) by (vm_compute; discriminate).
+  destruct (ex_run true) as [[r sf] tr]. cbn [fst snd] in *.
+  inversion H as [|? ? [H1 H2] _]; subst. split; [exact H1|]. split; [exact H2|exact Hne].
+Qed.
